@@ -1,3 +1,159 @@
-import SyneTune.Model.HB
+import SyneTune.Lemmas.HBPromotion
+/-
+C04 — promotion-type Hyperband (ASHA, PASHA, cost-aware, RUSH) promotes only eligible trials.
+Property theorems only; helper lemmas are in `Lemmas/HBPromotion.lean`.
+-/
 namespace SyneTune.C04
+open SyneTune
+
+/-- **Every trial pauses exactly at its next rung level.**  For a running trial with
+milestone `ms`: below the milestone it continues and nothing changes; at the milestone it
+does not continue (`milestone_reached`); beyond the milestone the code rejects the report
+(assertion) — unreachable when the worker obeys `max_resource_attr` or the loop obeys PAUSE. -/
+theorem pause_exactly_at_milestone (s : RungSys) (m : Mode) (tid r : Nat) (v cost : Rat)
+    (ms : Nat) (rf : Option Nat) (hrun : alookup tid s.running = some (ms, rf)) :
+    (r < ms → ∃ o, s.promoReport m tid r v cost = .ok (s, o) ∧ o.continues = true ∧ o.reached = false) ∧
+    (ms < r → ∃ e, s.promoReport m tid r v cost = .error e) ∧
+    (r = ms → ∀ s' o, s.promoReport m tid r v cost = .ok (s', o) →
+        o.continues = false ∧ o.reached = true) := by
+  refine ⟨?_, ?_, ?_⟩
+  · intro h
+    have : ¬ ms ≤ r := by omega
+    unfold RungSys.promoReport
+    simp only [hrun, this, if_false]
+    exact ⟨_, rfl, rfl, rfl⟩
+  · intro h
+    have h1 : ms ≤ r := by omega
+    have h2 : r ≠ ms := by omega
+    unfold RungSys.promoReport
+    simp only [hrun, h1, h2, if_true, ne_eq, not_false_eq_true]
+    exact ⟨_, rfl⟩
+  · intro h s' o hok
+    subst h
+    unfold RungSys.promoReport at hok
+    simp only [hrun, Nat.le_refl, if_true, ne_eq, not_true_eq_false, if_false] at hok
+    split at hok
+    · injection hok with hok; injection hok with _ h2; rw [← h2]; exact ⟨rfl, rfl⟩
+    · split at hok
+      · cases hok
+      · split at hok
+        · cases hok
+        · injection hok with hok; injection hok with _ h2; rw [← h2]; exact ⟨rfl, rfl⟩
+
+/-- **Never more than the cap.**  A promotion resumes a trial from a rung strictly below the
+cap (`max_t`, for PASHA the current cap) and tells it to run exactly to the next rung level
+above that rung (or `max_t` above the top rung); that milestone never exceeds `max_t`. -/
+theorem milestone_is_next_level (ty : HBType) (m : Mode) (numThr cap : Nat) (hint : Option Nat)
+    (maxT : Nat) (thr : List (Nat × Rat)) (rs : List Rung) (o : SchedOut)
+    (hd : RungsDecr rs) (hlt : ∀ rg ∈ rs, rg.level < maxT)
+    (h : (promoScan ty m numThr cap hint maxT thr rs).out = some o) :
+    o.resumeFrom < cap ∧ o.resumeFrom < o.milestone ∧ o.milestone ≤ maxT ∧
+    -- no rung level lies strictly between `resumeFrom` and `milestone`
+    (∀ rg ∈ rs, ¬ (o.resumeFrom < rg.level ∧ rg.level < o.milestone)) ∧
+    (o.milestone = maxT ∨ ∃ rg ∈ rs, rg.level = o.milestone) := by
+  obtain ⟨pre, rg, post, thr', pos, h1, h2, h3, _, _, h6⟩ := promoScan_some ty m numThr cap hint maxT thr rs o h
+  subst h1
+  have hpre : ∀ p ∈ pre, rg.level < p.level := by
+    intro p hp
+    unfold RungsDecr at hd
+    rw [List.pairwise_append] at hd
+    exact hd.2.2 p hp rg (by simp)
+  have hpost : ∀ p ∈ post, p.level < rg.level := by
+    intro p hp
+    unfold RungsDecr at hd
+    rw [List.pairwise_append] at hd
+    have := hd.2.1
+    rw [List.pairwise_cons] at this
+    exact this.1 p hp
+  refine ⟨by omega, ?_, ?_, ?_, ?_⟩
+  · rw [h6, ← h2]
+    cases hl : pre.getLast? with
+    | none => simp only; exact hlt rg (by simp)
+    | some p => simp only; exact hpre p (List.mem_of_getLast? hl)
+  · rw [h6]
+    cases hl : pre.getLast? with
+    | none => simp
+    | some p =>
+      simp only
+      exact Nat.le_of_lt (hlt p (by simp [List.mem_of_getLast? hl]))
+  · intro x hx hbetween
+    rw [h6, ← h2] at hbetween
+    rcases List.mem_append.mp hx with hx | hx
+    · -- x in pre: x.level ≥ last of pre
+      cases hl : pre.getLast? with
+      | none =>
+        have : pre = [] := by simpa using hl
+        subst this; simp at hx
+      | some p =>
+        simp only [hl] at hbetween
+        have hp : p ∈ pre := List.mem_of_getLast? hl
+        -- p is the last element of pre; x is before or equal; levels decrease
+        have hle : p.level ≤ x.level := by
+          obtain ⟨init, hinit⟩ : ∃ init, pre = init ++ [p] := by
+            have := List.getLast?_eq_some_iff.mp hl
+            obtain ⟨ys, hys⟩ := this; exact ⟨ys, hys⟩
+          subst hinit
+          rcases List.mem_append.mp hx with hx' | hx'
+          · unfold RungsDecr at hd
+            rw [List.append_assoc, List.pairwise_append] at hd
+            have := hd.2.2 x hx' p (by simp)
+            omega
+          · simp at hx'; subst hx'; exact Nat.le_refl _
+        omega
+    · rcases List.mem_cons.mp hx with rfl | hx
+      · omega
+      · have := hpost x hx; omega
+  · rw [h6]
+    cases hl : pre.getLast? with
+    | none => left; rfl
+    | some p => right; exact ⟨p, by simp [List.mem_of_getLast? hl], rfl⟩
+
+/-- **Only eligible trials are promoted** (ASHA and PASHA).  If the scan promotes trial `t`
+from rung `r`: `r` is below the cap; every rung above `r` that is below the cap had nothing
+promotable; `t`'s entry in rung `r` is unpromoted; every entry ranked better in that rung is
+already promoted (no other unpromoted trial is better); its metric is no worse than the
+rung's quantile whenever the comparison is outside round-off; and the only change to the
+rungs is that this entry is marked promoted. -/
+theorem eligible (ty : HBType) (hty : ty.plain) (m : Mode) (numThr cap : Nat) (hint : Option Nat)
+    (next : Nat) (thr : List (Nat × Rat)) (rs : List Rung) (o : SchedOut)
+    (h : (promoScan ty m numThr cap hint next thr rs).out = some o) :
+    ∃ pre rg post pos c e,
+      rs = pre ++ rg :: post ∧ rg.level = o.resumeFrom ∧ rg.level < cap ∧
+      (∀ p ∈ pre, p.level < cap → plainPick m p hint = none) ∧
+      rg.cutoff m = some c ∧ rg.data[pos]? = some e ∧ e.tid = o.trial ∧ e.promoted = false ∧
+      (∀ i, i < pos → ∀ x, rg.data[i]? = some x → x.promoted = true) ∧
+      (∀ b, cmpNoWorse m e.val c rg.scale = .forced b → m.noWorse e.val c) ∧
+      (promoScan ty m numThr cap hint next thr rs).rungs = pre ++ markPromoted m rg pos :: post := by
+  obtain ⟨pre, rg, post, pos, h1, h2, h3, h4, h5, h6, _⟩ :=
+    promoScan_plain_pre_none ty hty m numThr cap hint next thr rs o h
+  obtain ⟨c, e, g1, g2, g3, g4, g5, g6⟩ := plainPick_some m rg hint o.trial pos h5
+  refine ⟨pre, rg, post, pos, c, e, h1, h2, h3, h4, g1, g2, g3, g4, g5, ?_, h6⟩
+  intro b hb
+  have := g6 b hb
+  subst this
+  exact (cmpNoWorse_forced m e.val c rg.scale true hb).mp rfl
+
+/-- **If no trial is eligible a new trial is started** and no rung changes. -/
+theorem else_new (ty : HBType) (hty : ty.plain) (m : Mode) (numThr cap : Nat) (hint : Option Nat)
+    (next : Nat) (thr : List (Nat × Rat)) (rs : List Rung)
+    (h : (promoScan ty m numThr cap hint next thr rs).out = none) :
+    (∀ p ∈ rs, p.level < cap → plainPick m p hint = none) ∧
+    (promoScan ty m numThr cap hint next thr rs).rungs = rs :=
+  promoScan_plain_none ty hty m numThr cap hint next thr rs h
+
+/-- what "nothing promotable in a rung" means -/
+theorem not_promotable_means (m : Mode) (rg : Rung) (hint : Option Nat) (h : plainPick m rg hint = none) :
+    rg.cutoff m = none ∨ (∀ x ∈ rg.data, x.promoted = true) ∨
+    ∃ c e pos, rg.cutoff m = some c ∧ firstUnpromoted rg.data 0 = some (e, pos) ∧
+      (∀ b, cmpNoWorse m e.val c rg.scale = .forced b → ¬ m.noWorse e.val c) := by
+  rcases plainPick_none m rg hint h with h1 | h1 | ⟨c, e, pos, g1, g2, g3⟩
+  · exact Or.inl h1
+  · exact Or.inr (Or.inl h1)
+  · refine Or.inr (Or.inr ⟨c, e, pos, g1, g2, ?_⟩)
+    intro b hb hnw
+    have := g3 b hb
+    subst this
+    have := (cmpNoWorse_forced m e.val c rg.scale false hb).mpr hnw
+    cases this
+
 end SyneTune.C04
